@@ -180,6 +180,30 @@ func (fe *frontend) call(r *harness.RPC, c selCfg, run bool) feResp {
 	return resp
 }
 
+// feRespWithExtra is call() with one more raw flag appended.
+func feRespWithExtra(fe *frontend, r *harness.RPC, c selCfg, extra string) feResp {
+	var resp feResp
+	var err error
+	if fe.name == "analyzer" {
+		args := append(append([]string{"-debug-init"}, c.argv("analyzer")...), extra)
+		err = r.Call(map[string]interface{}{"op": "run", "args": args}, &resp)
+		if len(resp.Passes) > 0 {
+			resp.Err = resp.Passes[0].Err
+			resp.Panic = resp.Passes[0].Panic
+		}
+		if resp.ParseErr != "" {
+			resp.Err = resp.ParseErr
+		}
+	} else {
+		err = r.Call(map[string]interface{}{"op": "init", "args": append(c.argv("cli"), extra)}, &resp)
+	}
+	if err != nil {
+		fmt.Fprintf(os.Stderr, "%s rpc: %v\n", fe.name, err)
+		os.Exit(2)
+	}
+	return resp
+}
+
 func (fe *frontend) registry() map[string][]string {
 	r := fe.start()
 	defer r.Close()
@@ -461,6 +485,77 @@ func c06(args []string) int {
 			}(w)
 		}
 		wg.Wait()
+	}
+
+	// ------------------------------------------------------------------ leg E: parameters of checkers that are not selected are inert
+	// For two selections (default; one named checker) and every registered parameter x small value domain: when
+	// the parameter's checker is not selected, giving the flag must not change the outcome in any way.
+	{
+		type pflag struct{ checker, flag string }
+		var pflags []pflag
+		for _, in := range harness.Infos(nil) {
+			var pn []string
+			for k := range in.Params {
+				pn = append(pn, k)
+			}
+			sort.Strings(pn)
+			for _, k := range pn {
+				var vals []string
+				switch in.Params[k].Value.(type) {
+				case int:
+					vals = []string{"-1", "0", "2147483647"}
+				case bool:
+					vals = []string{"true", "false"}
+				case string:
+					vals = []string{"", "bogus", "x,y"}
+				}
+				for _, v := range vals {
+					pflags = append(pflags, pflag{in.Name, fmt.Sprintf("-@%s.%s=%s", in.Name, k, v)})
+				}
+			}
+		}
+		for _, v := range []string{"-1", "0", "9"} {
+			pflags = append(pflags, pflag{"vprobePerf", "-@vprobePerf.p=" + v}, pflag{"vprobeDiagExp", "-@vprobeDiagExp.p=" + v})
+		}
+		ev.Set("inert_parameter_flags", len(pflags))
+		sels := []selCfg{{}, {Enable: []string{"assignOp"}, Disable: []string{}}, {Enable: []string{"#diagnostic"}, Disable: []string{"#experimental"}}}
+		for _, fe := range append(fesFull, fes[2]) {
+			r := fe.start()
+			for _, c := range sels {
+				base := fe.call(r, c, false)
+				baseSel := strings.Join(base.Selected, ",")
+				selected := map[string]bool{}
+				for _, n := range base.Selected {
+					selected[n] = true
+				}
+				if fe.name == "analyzer" {
+					// the analyzer RPC reports what ran through diagnostics of the probes only; compare error state
+					baseSel = ""
+				}
+				for _, pf := range pflags {
+					if selected[pf.checker] {
+						continue
+					}
+					if fe.name == "analyzer" && strings.HasPrefix(pf.checker, "vprobe") {
+						continue
+					}
+					c2 := c
+					resp := feRespWithExtra(fe, r, c2, pf.flag)
+					ev.Eval(1)
+					ev.Nontrivial("inert|" + fe.name + "|" + c.String() + "|" + pf.flag)
+					got := strings.Join(resp.Selected, ",")
+					if fe.name == "analyzer" {
+						got = ""
+					}
+					if resp.Err != base.Err || resp.Panic != base.Panic || got != baseSel || strings.Join(resp.Constructed, ",") != strings.Join(base.Constructed, ",") {
+						ev.Violate(evidence.Violation{Key: fe.name + "|parameter-of-unselected-checker-not-inert|" + pf.checker, What: fe.name + ": a parameter of a checker that is not selected changes the outcome of the run",
+							Observed: fmt.Sprintf("%s with %s\nwithout the flag: err=%q selected=%d\nwith the flag:    err=%q panic=%q selected=%d", c.String(), pf.flag, base.Err, len(base.Selected), resp.Err, resp.Panic, len(resp.Selected)),
+							Replay:   map[string]interface{}{"frontend": fe.name, "config": c.String(), "argv": append(c.argv(fe.name), pf.flag)}})
+					}
+				}
+			}
+			r.Close()
+		}
 	}
 
 	// ------------------------------------------------------------------ leg C: real binaries, real flag parsing
